@@ -178,9 +178,13 @@ def o_linearity(case):
     r2 = solve3(dict(base, q=q2, bg=c2))
     r3 = solve3(dict(base, q=a * q1 + b * q2, bg=a * c1 + b * c2))
     tol = 1e-10 if case["precision"] == "double" else 3e-5
+    # a window emptied by the re-centring (the sources end up in the halo) holds rounding noise of the natural response
+    # scale, not a field: errors are measured against that scale at least
+    fl1 = field_floor(dict(base, q=q1, bg=c1))
+    fl2 = field_floor(dict(base, q=q2, bg=c2))
     for name, k in (("conc", 0), ("flx", 1)):
         exp = a * r1[k] + b * r2[k]
-        sc = max(np.max(np.abs(a * r1[k])), np.max(np.abs(b * r2[k])), 1e-300)
+        sc = max(np.max(np.abs(a * r1[k])), np.max(np.abs(b * r2[k])), abs(a) * fl1[k] + abs(b) * fl2[k], 1e-300)
         err = float(np.max(np.abs(r3[k] - exp)) / sc)
         if not err <= tol:
             return fail("C04/linearity/%s" % name, "%s of a linear combination of inputs is not the combination of outputs" % name,
